@@ -120,8 +120,15 @@ def _one(job):
                 except Exception:  # noqa: BLE001
                     d[arr] = None
             sizes[fname[len("tabulate_tensor_"):]] = d
-        for k in ks:
+        # kernels are linked by name; UFL's form signature (hence every name) of a form whose integrand mixes terminals of two
+        # meshes can differ between two loads of the same file in one process (it depends on the digits of the mesh ids), so
+        # when the names of this second load are not those of the module the kernels are linked by position instead
+        ordered = [f[len("tabulate_tensor_"):] for f in re.findall(r"^def (tabulate_tensor_\w+)\(", n_src, re.M)]
+        by_position = len(ordered) == len(ks) and any((k.ir.expression.name + (f"_{k.domain.name}" if k.kind == "integral" else "")) not in sizes for k in ks)
+        for pos, k in enumerate(ks):
             nm = k.ir.expression.name + (f"_{k.domain.name}" if k.kind == "integral" else "")
+            if by_position:
+                nm = ordered[pos]
             d = sizes.get(nm)
             if d is None:
                 report(f"{tag}: numba kernel {nm[:20]} declares its array sizes", False)
